@@ -23,13 +23,15 @@ TRUSTED = [
 HEAD = ["from Reduino.Sensors import Button, Potentiometer, Ultrasonic", "from Reduino.Communication import SerialMonitor", "from Reduino.Utils import sleep"]
 
 
-def button_script(in_loop: bool, nreads: int):
-    lines = HEAD + ["mon = SerialMonitor(9600)", "def on_press():", '    mon.write("C")']
+def button_script(in_loop: bool, nreads: int, form: str = "write"):
+    lines = HEAD + ["mon = SerialMonitor(9600)", "def on_press():", '    mon.write("C")', "k = 0"]
     if not in_loop:
         lines.append("btn = Button(7, on_click=on_press)")
     lines.append("while True:")
     if in_loop:
         lines.append("    btn = Button(7, on_click=on_press)")
+    if form == "while":      # the sampled state is also used as a condition of nested control flow: still one sample per pass
+        lines += ["    k = 0", "    while btn.is_pressed() and k < 2:", "        k += 1", "    if btn.is_pressed():", "        k += 1"]
     for _ in range(nreads):
         lines.append("    mon.write(btn.is_pressed())")
     lines.append('    mon.write("#")')
@@ -77,6 +79,10 @@ def run(ctx: Ctx) -> int:
             src = button_script(in_loop, nreads)
             for sig in sigs if (not in_loop and nreads == 1) else rng.sample(sigs, min(len(sigs), ctx.n(12, 60))):
                 bjobs.append((in_loop, nreads, src, sig))
+    for in_loop in (False, True):
+        src = button_script(in_loop, 1, "while")
+        for sig in rng.sample(sigs, min(len(sigs), ctx.n(12, 60))):
+            bjobs.append((in_loop, 1, src, sig))
     # pinned finding witness: button declared in the loop body, held at power-up
     bjobs.append((True, 1, button_script(True, 1), [1, 1, 0, 1]))
 
